@@ -1,45 +1,94 @@
 ----------------------------- MODULE LineParser -----------------------------
-(* Operational model of AutomatonParser.parse_line + DFABuilder / NFABuilder   *)
-(* .build: the description is consumed line by line (ParseLine), then the       *)
-(* builder performs its checks in the order of the code (Build).  TLC explores  *)
-(* every permutation of the lines of a small description, every subset of its   *)
-(* optional declarations and every single-fault corruption, and checks that the *)
-(* operational outcome equals the declarative meaning of Text.tla:              *)
+(* Operational model of AutomatonParser.parse_line + the four builders          *)
+(* (DFABuilder / NFABuilder / PDABuilder / TMBuilder .build): the description   *)
+(* is consumed line by line (ParseLine), then the builder performs its checks   *)
+(* in the order of the code (Build).  TLC explores every permutation of the     *)
+(* lines of a small description, every subset of its optional declarations and  *)
+(* every single-fault corruption, and checks that the operational outcome       *)
+(* equals the declarative meaning of Text.tla:                                  *)
 (*    err = "none"  <=>  WellFormed(D),   and then result = Describes(D).        *)
 (* The terminal states are printed as behaviours (G) and replayed into the real *)
-(* parse_dfa / parse_nfa.                                                        *)
+(* parse_dfa / parse_nfa / parse_pda / parse_tm.                                 *)
 EXTENDS Util, Text, Json
-CONSTANT Kind            \* "dfa" or "nfa"
+CONSTANT Kind            \* "dfa", "nfa", "pda" or "tm"
+CONSTANT FullOrders      \* TRUE: every permutation of up to 6 lines; FALSE: rotations and reversals only
 
-Ok(a) == <<"ok", FALSE, a>>
+(* the default epsilon / blank glyph, in the ASCII escape the harness uses *)
+Glyph == IF Kind = "tm" THEN "~25a1~" ELSE "~03b5~"
+Ok(a) == <<"ok", a = Glyph, a>>
+OkP(a, u, v) == <<"ok", Glyph \in {a, u, v}, a, u, v>>        \* PDA label  a,uv
+OkT(a, b, d) == <<"ok", Glyph \in {a, b}, a, b, d>>           \* TM label   ab,d
+Bad(raw) == <<"bad", raw>>
 Ln(k, t) == [k |-> k, t |-> t]
-(* the base description: two states p, q over {a}; the NFA adds an epsilon move *)
-Mandatory == {Ln("initial", <<"p">>), Ln("tr", <<"p", "q", Ok("a")>>), Ln("tr", <<"q", "q", Ok("a")>>)}
-             \cup (IF Kind = "nfa" THEN {Ln("tr", <<"q", "p", Ok("e")>>)} ELSE {})
-Optional == {Ln("states", <<"p", "q">>), Ln("final", <<"q">>), Ln("kw", <<"input_symbols", "a">>)}
-            \cup (IF Kind = "nfa" THEN {Ln("kw", <<"epsilon", "e">>)} ELSE {})
+
+(* ---------- the base descriptions and their single-fault corruptions ---------- *)
+(* dfa / nfa: two states p, q over {a}; the NFA adds an epsilon move              *)
+(* pda: push X reading a, pop X on epsilon; tm: two moves and two halting states  *)
+Mandatory ==
+  CASE Kind = "dfa" -> {Ln("initial", <<"p">>), Ln("tr", <<"p", "q", Ok("a")>>), Ln("tr", <<"q", "q", Ok("a")>>)}
+    [] Kind = "nfa" -> {Ln("initial", <<"p">>), Ln("tr", <<"p", "q", Ok("a")>>), Ln("tr", <<"q", "q", Ok("a")>>),
+                        Ln("tr", <<"q", "p", Ok("e")>>)}
+    [] Kind = "pda" -> {Ln("initial", <<"p">>), Ln("tr", <<"p", "q", OkP("a", "e", "X")>>),
+                        Ln("tr", <<"q", "q", OkP("e", "X", "e")>>)}
+    [] Kind = "tm"  -> {Ln("initial", <<"p">>), Ln("tr", <<"p", "p", OkT("a", "B", "R")>>),
+                        Ln("tr", <<"p", "y", OkT("B", "B", "L")>>)}
+Optional ==
+  CASE Kind = "dfa" -> {Ln("states", <<"p", "q">>), Ln("final", <<"q">>), Ln("kw", <<"input_symbols", "a">>)}
+    [] Kind = "nfa" -> {Ln("states", <<"p", "q">>), Ln("final", <<"q">>), Ln("kw", <<"input_symbols", "a">>),
+                        Ln("kw", <<"epsilon", "e">>)}
+    [] Kind = "pda" -> {Ln("states", <<"p", "q">>), Ln("final", <<"q">>), Ln("kw", <<"input_symbols", "a">>),
+                        Ln("kw", <<"stack_symbols", "X">>), Ln("kw", <<"epsilon", "e">>)}
+    [] Kind = "tm"  -> {Ln("states", <<"p", "y", "n">>), Ln("kw", <<"accept", "y">>), Ln("kw", <<"reject", "n">>),
+                        Ln("kw", <<"input_symbols", "a">>), Ln("kw", <<"tape_symbols", "a", "B">>),
+                        Ln("kw", <<"blank", "B">>)}
 (* single faults: a line to add, or a line replacing another *)
+CommonAdditions ==
+  {Ln("initial", <<"q">>), Ln("final", <<"q", "q">>), Ln("states", <<>>), Ln("tr", <<"p", "q">>),
+   Ln("kw", <<"input_symbols", "a">>), Ln("initial", <<>>), Ln("skip", <<>>), Ln("final", <<"r">>)}
 Additions ==
-  {Ln("states", <<"p", "q">>), Ln("initial", <<"q">>), Ln("final", <<"q", "q">>), Ln("states", <<>>),
-   Ln("tr", <<"p", "q">>), Ln("tr", <<"p", "p", Ok("a")>>), Ln("tr", <<"q", "r", Ok("a")>>),
-   Ln("tr", <<"p", "q", Ok("b")>>), Ln("kw", <<"input_symbols", "a">>), Ln("initial", <<>>),
-   Ln("tr", <<"x-1", "q", Ok("a")>>), Ln("skip", <<>>), Ln("final", <<"r">>), Ln("states", <<"p", "q", "r">>)}
-  \cup (IF Kind = "nfa" THEN {Ln("kw", <<"epsilon">>), Ln("kw", <<"epsilon", "e", "f">>), Ln("kw", <<"input_symbols", "a", "e">>)}
-        ELSE {})
+  CommonAdditions \cup
+  CASE Kind = "dfa" ->
+         {Ln("states", <<"p", "q">>), Ln("states", <<"p", "q", "r">>), Ln("tr", <<"p", "p", Ok("a")>>),
+          Ln("tr", <<"q", "r", Ok("a")>>), Ln("tr", <<"p", "q", Ok("b")>>), Ln("tr", <<"x-1", "q", Ok("a")>>),
+          Ln("kw", <<"input_symbols", "a", "x-1">>)}
+    [] Kind = "nfa" ->
+         {Ln("states", <<"p", "q">>), Ln("states", <<"p", "q", "r">>), Ln("tr", <<"p", "p", Ok("a")>>),
+          Ln("tr", <<"q", "r", Ok("a")>>), Ln("tr", <<"p", "q", Ok("b")>>), Ln("tr", <<"x-1", "q", Ok("a")>>),
+          Ln("kw", <<"epsilon">>), Ln("kw", <<"epsilon", "e", "f">>), Ln("kw", <<"input_symbols", "a", "e">>),
+          Ln("tr", <<"p", "p", Ok(Glyph)>>), Ln("kw", <<"input_symbols", "a", "x-1">>)}
+    [] Kind = "pda" ->
+         {Ln("states", <<"p", "q">>), Ln("states", <<"p", "q", "r">>), Ln("tr", <<"q", "r", OkP("a", "e", "X")>>),
+          Ln("tr", <<"p", "q", OkP("b", "e", "e")>>), Ln("tr", <<"p", "q", OkP("a", "Y", "X")>>),
+          Ln("tr", <<"p", "q", OkP("a", "X", "Y")>>), Ln("tr", <<"x-1", "q", OkP("a", "e", "X")>>),
+          Ln("kw", <<"epsilon">>), Ln("kw", <<"epsilon", "e", "f">>), Ln("kw", <<"input_symbols", "a", "e">>),
+          Ln("kw", <<"stack_symbols", "X", "e">>), Ln("kw", <<"stack_symbols", "X">>),
+          Ln("tr", <<"p", "q", Bad("aX")>>), Ln("tr", <<"p", "q", OkP("a", "e", "X"), Bad("a,X")>>),
+          Ln("tr", <<"p", "p", OkP("a", Glyph, "X")>>), Ln("tr", <<"p", "p", OkP(Glyph, "X", "X")>>),
+          Ln("kw", <<"input_symbols", "a", "x-1">>), Ln("kw", <<"stack_symbols">>)}
+    [] Kind = "tm" ->
+         {Ln("states", <<"p", "y", "n">>), Ln("states", <<"p", "y", "n", "r">>), Ln("states", <<"p", "y">>),
+          Ln("tr", <<"y", "r", OkT("a", "a", "R")>>), Ln("tr", <<"y", "p", OkT("c", "a", "R")>>),
+          Ln("tr", <<"y", "p", OkT("a", "c", "L")>>), Ln("tr", <<"x-1", "p", OkT("a", "a", "R")>>),
+          Ln("kw", <<"accept">>), Ln("kw", <<"accept", "y", "z">>), Ln("kw", <<"reject", "y">>), Ln("kw", <<"accept", "n">>),
+          Ln("kw", <<"accept", "x-1">>), Ln("kw", <<"accept", "p">>), Ln("kw", <<"reject", "accept">>),
+          Ln("kw", <<"blank">>), Ln("kw", <<"blank", "B", "C">>), Ln("kw", <<"blank", "a">>),
+          Ln("kw", <<"input_symbols", "a", "B">>), Ln("kw", <<"input_symbols", "c">>), Ln("kw", <<"input_symbols">>),
+          Ln("kw", <<"tape_symbols", "a">>), Ln("kw", <<"tape_symbols", "a", "B", "c">>),
+          Ln("tr", <<"y", "p", Bad("aB,D")>>), Ln("tr", <<"y", "p", OkT("a", Glyph, "R")>>)}
 Removals == Mandatory
 
-VARIABLES lines, pos, items, states, trans, initial, final, err, ph, result
-vars == <<lines, pos, items, states, trans, initial, final, err, ph, result>>
+VARIABLES lines, pos, items, states, trans, initial, final, err, ph, result, gl
+vars == <<lines, pos, items, states, trans, initial, final, err, ph, result, gl>>
 
-D == [kind |-> Kind, lines |-> lines, badstate |-> {"x-1"}, badsym |-> {}, glyph |-> "~eps-glyph~"]
+D == [kind |-> Kind, lines |-> lines, badstate |-> {"x-1"}, badsym |-> {"x-1"}, glyph |-> Glyph]
 
 (* every order of up to 6 lines; for longer texts every rotation and its reversal *)
-Orders(n) == IF n <= 6 THEN PermSeqs(1..n)
+Orders(n) == IF FullOrders /\ n <= 6 THEN PermSeqs(1..n)
              ELSE {[k \in 1..n |-> ((k + r - 1) % n) + 1] : r \in 0..(n - 1)}
                   \cup {[k \in 1..n |-> ((n - k + r) % n) + 1] : r \in 0..(n - 1)}
 
 Init == /\ lines = <<>> /\ pos = 0 /\ items = <<>> /\ states = {} /\ trans = <<>> /\ initial = {} /\ final = {}
-        /\ err = "none" /\ ph = "pick" /\ result = <<>>
+        /\ err = "none" /\ ph = "pick" /\ result = <<>> /\ gl = FALSE
 (* step 1: which lines; step 2: their order (spreads the cases over the workers) *)
 PickLines == /\ ph = "pick" /\ ph' = "order"
              /\ \E opt \in SUBSET Optional :
@@ -48,22 +97,29 @@ PickLines == /\ ph = "pick" /\ ph' = "order"
                   \/ \E a \in Additions \cap (Mandatory \cup opt) :      \* the same line twice
                         lines' = SetToSeq(Mandatory \cup opt) \o <<a>>
                   \/ \E r \in Removals : lines' = SetToSeq((Mandatory \ {r}) \cup opt)
-             /\ UNCHANGED <<pos, items, states, trans, initial, final, err, result>>
+             /\ UNCHANGED <<pos, items, states, trans, initial, final, err, result, gl>>
 PickOrder == /\ ph = "order" /\ ph' = "parse"
              /\ \E p \in Orders(Len(lines)) : lines' = [k \in 1..Len(lines) |-> lines[p[k]]]
              /\ pos' = 1
-             /\ UNCHANGED <<items, states, trans, initial, final, err, result>>
+             /\ UNCHANGED <<items, states, trans, initial, final, err, result, gl>>
 
 HasKey(k) == k \in DOMAIN items
 Put(k, v) == [x \in DOMAIN items \cup {k} |-> IF x = k THEN v ELSE items[x]]
-Fail(e) == err' = e /\ ph' = "done" /\ UNCHANGED <<lines, pos, items, states, trans, initial, final, result>>
+Fail(e) == err' = e /\ ph' = "done" /\ UNCHANGED <<lines, pos, items, states, trans, initial, final, result, gl>>
+
+(* the transition tuple a label contributes: the shapes of Text!Describes *)
+MkTr(p, q, lb) == CASE Kind \in {"dfa", "nfa"} -> <<p, lb[3], q>>
+                    [] Kind = "pda" -> <<p, lb[3], lb[4], q, lb[5]>>
+                    [] Kind = "tm"  -> <<p, lb[3], q, lb[4], lb[5]>>
+SrcOf(t) == t[1]
+DstOf(t) == IF Kind = "pda" THEN t[4] ELSE t[3]
 
 (* AutomatonParser.parse_line *)
 ParseLine ==
   /\ ph = "parse" /\ pos <= Len(lines)
   /\ LET l == lines[pos]
          t == l.t
-     IN CASE l.k = "skip" -> pos' = pos + 1 /\ UNCHANGED <<lines, items, states, trans, initial, final, err, ph, result>>
+     IN CASE l.k = "skip" -> pos' = pos + 1 /\ UNCHANGED <<lines, items, states, trans, initial, final, err, ph, result, gl>>
           [] l.k \in {"states", "final", "initial"} ->
                IF HasKey(l.k) THEN Fail("duplicate_key")
                ELSE IF ~SeqIsSet(t) THEN Fail("duplicate_entry")
@@ -74,46 +130,103 @@ ParseLine ==
                     /\ final' = IF l.k = "final" THEN ToSet(t) ELSE final
                     /\ initial' = IF l.k = "initial" THEN ToSet(t) ELSE initial
                     /\ pos' = pos + 1
-                    /\ UNCHANGED <<lines, trans, err, ph, result>>
+                    /\ UNCHANGED <<lines, trans, err, ph, result, gl>>
           [] l.k = "kw" ->
                IF HasKey(t[1]) THEN Fail("duplicate_key")
                ELSE items' = Put(t[1], SubSeq(t, 2, Len(t))) /\ pos' = pos + 1
-                    /\ UNCHANGED <<lines, states, trans, initial, final, err, ph, result>>
+                    /\ UNCHANGED <<lines, states, trans, initial, final, err, ph, result, gl>>
           [] l.k = "tr" ->
+               (* parse_transition: length, the two states, then the labels one by one *)
                IF Len(t) <= 2 THEN Fail("short_transition")
                ELSE IF {t[1], t[2]} \cap D.badstate # {} THEN Fail("bad_state_label")
-               ELSE /\ trans' = trans \o [j \in 1..(Len(t) - 2) |-> <<t[1], t[j + 2][3], t[2]>>]
+               ELSE IF \E j \in 3..Len(t) : t[j][1] = "bad" THEN Fail("bad_transition_label")
+               ELSE /\ trans' = trans \o [j \in 1..(Len(t) - 2) |-> MkTr(t[1], t[2], t[j + 2])]
+                    /\ gl' = (gl \/ \E j \in 3..Len(t) : t[j][2])
                     /\ pos' = pos + 1
                     /\ UNCHANGED <<lines, items, states, initial, final, err, ph, result>>
 
 EndOfText == /\ ph = "parse" /\ pos = Len(lines) + 1
              /\ ph' = "build"
-             /\ UNCHANGED <<lines, pos, items, states, trans, initial, final, err, result>>
+             /\ UNCHANGED <<lines, pos, items, states, trans, initial, final, err, result, gl>>
 
-(* DFABuilder.build / NFABuilder.build: the checks in the order of the code *)
-Used == initial \cup final \cup {trans[j][1] : j \in DOMAIN trans} \cup {trans[j][3] : j \in DOMAIN trans}
-Sts == IF states # {} THEN states ELSE Used
-EpsSym == IF HasKey("epsilon") THEN (IF Len(items["epsilon"]) >= 1 THEN items["epsilon"][1] ELSE "_") ELSE "_"
-UsedSyms == IF Kind = "dfa" THEN {trans[j][2] : j \in DOMAIN trans}
-            ELSE {trans[j][2] : j \in DOMAIN trans} \ {EpsSym}
-Sigma == IF HasKey("input_symbols") THEN ToSet(items["input_symbols"]) ELSE UsedSyms
+(* ---------- the builders: the checks in the order of the code ---------- *)
+Used == initial \cup final \cup {SrcOf(trans[j]) : j \in DOMAIN trans} \cup {DstOf(trans[j]) : j \in DOMAIN trans}
+Val(key, default) == IF Len(items[key]) >= 1 THEN items[key][1] ELSE default
+(* AutomatonBuilder.parse_symbol: the declared symbol, else the glyph if some label contains it, else "_" *)
+SpecialKeyOp == IF Kind = "tm" THEN "blank" ELSE "epsilon"
+EpsSym == IF HasKey(SpecialKeyOp) THEN Val(SpecialKeyOp, "_") ELSE IF gl THEN Glyph ELSE "_"
+KeySet(key) == ToSet(items[key])
+BadArity(key) == HasKey(key) /\ Len(items[key]) # 1
 
-Build ==
-  /\ ph = "build"
-  /\ IF ~(Used \subseteq Sts) THEN Fail("undeclared_state")
-     ELSE IF Cardinality(initial) # 1 THEN Fail("initial_count")
-     ELSE IF Kind = "dfa" /\ \E a, b \in DOMAIN trans : a # b /\ trans[a][1] = trans[b][1] /\ trans[a][2] = trans[b][2]
-          THEN Fail("nondeterministic")
-     ELSE IF Kind = "nfa" /\ HasKey("epsilon") /\ Len(items["epsilon"]) # 1 THEN Fail("missing_value")
-     ELSE IF HasKey("input_symbols") /\ ~(UsedSyms \subseteq Sigma) THEN Fail("undeclared_symbol")
-     ELSE IF Kind = "dfa" /\ \E q \in Sts, a \in Sigma : ~\E j \in DOMAIN trans : trans[j][1] = q /\ trans[j][2] = a
-          THEN Fail("not_total")
-     ELSE IF Kind = "nfa" /\ EpsSym \in Sigma THEN Fail("class_invariant")
-     ELSE /\ result' = [Q |-> Sts, S |-> Sigma, T |-> {trans[j] : j \in DOMAIN trans},
-                        q0 |-> CHOOSE q \in initial : TRUE, F |-> final,
-                        eps |-> IF Kind = "dfa" THEN "~eps~" ELSE EpsSym]
-          /\ ph' = "done"
-          /\ UNCHANGED <<lines, pos, items, states, trans, initial, final, err>>
+(* TMBuilder: accept / reject default to fresh names w.r.t. the DECLARED states *)
+HaltOp(key) == IF HasKey(key) THEN Val(key, key) ELSE Fresh(states, key)
+Sts == IF states # {} THEN states
+       ELSE IF Kind = "tm" THEN Used \cup {HaltOp("accept"), HaltOp("reject")} ELSE Used
+
+UsedSyms == CASE Kind = "dfa" -> {trans[j][2] : j \in DOMAIN trans}
+              [] Kind \in {"nfa", "pda"} -> {trans[j][2] : j \in DOMAIN trans} \ {EpsSym}
+              [] Kind = "tm" -> {}
+UsedStackOp == UNION {{trans[j][3], trans[j][5]} : j \in DOMAIN trans} \ {EpsSym}
+UsedTapeOp == UNION {{trans[j][2], trans[j][4]} : j \in DOMAIN trans}
+(* get_symbol_set(key, used): the declared set (after checking used <= declared when used is not empty), else used *)
+Undeclared(key, used) == HasKey(key) /\ ~(used \subseteq KeySet(key))
+SetOr(key, used) == IF HasKey(key) THEN KeySet(key) ELSE used
+Sigma == IF Kind = "tm"
+         THEN (IF HasKey("input_symbols") THEN KeySet("input_symbols") ELSE SetOr("tape_symbols", UsedTapeOp) \ {EpsSym})
+         ELSE SetOr("input_symbols", UsedSyms)
+GammaOp == IF Kind = "tm" THEN SetOr("tape_symbols", UsedTapeOp) \cup {EpsSym} ELSE SetOr("stack_symbols", UsedStackOp)
+(* TMBuilder: delta[p, a] = ... - the last line wins *)
+LastWins == {trans[j] : j \in {j \in DOMAIN trans : ~\E k \in DOMAIN trans : k > j /\ trans[k][1] = trans[j][1]
+                                                                            /\ trans[k][2] = trans[j][2]}}
+Succeed(r) == /\ result' = r /\ ph' = "done"
+              /\ UNCHANGED <<lines, pos, items, states, trans, initial, final, err, gl>>
+
+BuildFA ==
+  IF ~(Used \subseteq Sts) THEN Fail("undeclared_state")
+  ELSE IF Sts \cap D.badstate # {} THEN Fail("bad_state_label")
+  ELSE IF Cardinality(initial) # 1 THEN Fail("initial_count")
+  ELSE IF Kind = "dfa" /\ \E a, b \in DOMAIN trans : a # b /\ trans[a][1] = trans[b][1] /\ trans[a][2] = trans[b][2]
+       THEN Fail("nondeterministic")
+  ELSE IF Kind = "nfa" /\ BadArity("epsilon") THEN Fail("missing_value")
+  ELSE IF Undeclared("input_symbols", UsedSyms) THEN Fail("undeclared_symbol")
+  ELSE IF Sigma \cap D.badsym # {} THEN Fail("bad_symbol")
+  ELSE IF Kind = "dfa" /\ \E q \in Sts, a \in Sigma : ~\E j \in DOMAIN trans : trans[j][1] = q /\ trans[j][2] = a
+       THEN Fail("not_total")
+  ELSE IF Kind = "nfa" /\ EpsSym \in Sigma THEN Fail("class_invariant")
+  ELSE Succeed([Q |-> Sts, S |-> Sigma, T |-> {trans[j] : j \in DOMAIN trans},
+                q0 |-> CHOOSE q \in initial : TRUE, F |-> final,
+                eps |-> IF Kind = "dfa" THEN "~eps~" ELSE EpsSym])
+
+BuildPDA ==
+  IF ~(Used \subseteq Sts) THEN Fail("undeclared_state")
+  ELSE IF Sts \cap D.badstate # {} THEN Fail("bad_state_label")
+  ELSE IF Cardinality(initial) # 1 THEN Fail("initial_count")
+  ELSE IF BadArity("epsilon") THEN Fail("missing_value")
+  ELSE IF Undeclared("input_symbols", UsedSyms) THEN Fail("undeclared_symbol")
+  ELSE IF Undeclared("stack_symbols", UsedStackOp) THEN Fail("undeclared_symbol")
+  ELSE IF Sigma \cap D.badsym # {} THEN Fail("bad_symbol")
+  ELSE IF EpsSym \in Sigma \/ EpsSym \in GammaOp THEN Fail("class_invariant")       \* the asserts of PDA._check_validity
+  ELSE Succeed([Q |-> Sts, S |-> Sigma, G |-> GammaOp, T |-> {trans[j] : j \in DOMAIN trans},
+                q0 |-> CHOOSE q \in initial : TRUE, F |-> final, eps |-> EpsSym])
+
+BuildTM ==
+  IF BadArity("accept") \/ BadArity("reject") THEN Fail("missing_value")
+  ELSE IF ~(Used \subseteq Sts) THEN Fail("undeclared_state")
+  ELSE IF Sts \cap D.badstate # {} THEN Fail("bad_state_label")
+  ELSE IF Cardinality(initial) # 1 THEN Fail("initial_count")
+  ELSE IF BadArity("blank") THEN Fail("missing_value")
+  ELSE IF Undeclared("tape_symbols", UsedTapeOp) THEN Fail("undeclared_symbol")
+  ELSE IF \/ HaltOp("accept") = HaltOp("reject") \/ ~({HaltOp("accept"), HaltOp("reject")} \subseteq Sts)
+          \/ EpsSym \in Sigma \/ ~(Sigma \subseteq GammaOp)
+       THEN Fail("class_invariant")                                                  \* the asserts of TM._check_validity
+  ELSE Succeed([Q |-> Sts, S |-> Sigma, G |-> GammaOp, T |-> LastWins,
+                q0 |-> CHOOSE q \in initial : TRUE, qa |-> HaltOp("accept"), qr |-> HaltOp("reject"),
+                blank |-> EpsSym])
+
+Build == /\ ph = "build"
+         /\ CASE Kind \in {"dfa", "nfa"} -> BuildFA
+              [] Kind = "pda" -> BuildPDA
+              [] Kind = "tm" -> BuildTM
 
 Next == PickLines \/ PickOrder \/ ParseLine \/ EndOfText \/ Build
 Spec == Init /\ [][Next]_vars
